@@ -715,6 +715,9 @@ func cmdReplay(args []string) int {
 		w := world.New(sc.Cfg)
 		defer w.Close()
 		fs := engine.Replay(w, sc, tr.Finding.Root, tr.Finding.Trace, os.Stdout)
+		if os.Getenv("VERIF_SHOW_OPS") != "" {
+			fmt.Println("enabled operations after the trace:", engine.EnabledAfter(w, sc, tr.Finding.Root, tr.Finding.Trace))
+		}
 		hit := false
 		for _, f := range fs {
 			fmt.Printf("FINDING %s :: %s\n", f.Sig(), f.Detail)
